@@ -221,11 +221,17 @@ class Cfg:
             return join
         if t == 'while':
             head = self.new(); after = self.new(); self.edges.append((cur, None, head))
-            if events_of(ir[1]):
-                raise Deviation('protocol event inside a loop condition')
-            body = self.new(); self.edges.append((head, None, body))
-            if ir[1] != 'true':
-                self.edges.append((head, 'done', after))
+            body = self.new()
+            evs = events_of(ir[1])
+            if evs:      # e.g. while (!head.compare_exchange_weak(h, raw)) ;
+                c = self.chain(head, evs[:-1]); last = evs[-1]
+                yes, no = ((':ok', ':fail') if last.startswith('cas') else (':true', ':false'))
+                neg = ir[1].startswith('(!')
+                self.edges.append((c, last + (no if neg else yes), body)); self.edges.append((c, last + (yes if neg else no), after))
+            else:
+                self.edges.append((head, None, body))
+                if ir[1] != 'true':
+                    self.edges.append((head, 'done', after))
             e = self.build(ir[2], body, after)
             if e is not None:
                 self.edges.append((e, None, head))
